@@ -48,7 +48,7 @@ def run(ctx):
                 if ctx.quick and iface == "tfdata" and fp == 2:
                     continue
                 configs.append({"iface": iface, "shuffle": shuffle, "fp": fp, "repeat": True})
-    obs = R.run_grid(ctx, "C19", "repeat", configs)
+    obs = R.run_grid(ctx, "C19", "repeat", configs, lockstep=["numpy", "concurrent", "async", "rust", "tfdata"])
     ctx.cov["traces_validated_against_impl"] = len(obs)
 
 
